@@ -4,8 +4,8 @@ Mirrors `checker/unitary_checker.py` (`BBUnitaryChecker`, `check_invalid_under_d
 `check_cfg_unitary`), the dagger pre-check of `checker/modifier_checker.py`
 (`check_modified_block`), `ModifiedBlock.flags` (`nodes.py`), `_parse_kwargs`
 (`guppylang/decorator.py`) and `add_unitarity_metadata` (`definition/function.py`),
-as of the repaired code (fix commit for D7: branch predicates are visited and every
-argument of a call is visited).
+as of the repaired code (fix for D7: branch predicates are visited and every argument of a
+call is visited; fix for nested blocks: a `with` body inherits the flags of its context).
 
 Import-free; all functions total and structurally recursive. -/
 namespace GuppyVerif.Unitary
@@ -101,6 +101,9 @@ inductive Stmt where
   | assign (v : Option Expr)
   | ite (c : Expr) (t f : Block)
   | while (c : Expr) (b : Block)
+  /-- nested `with <modifiers>: body`; `cargs` = the arguments of its `control(…)` items as the
+      enclosing block's visitor reaches them (checked places), `G` = `ModifiedBlock.flags()` -/
+  | withBlock (cargs : Args) (G : Flags) (b : Block)
 inductive Block where
   | nil
   | cons (s : Stmt) (rest : Block)
@@ -137,45 +140,44 @@ def errsArgs (F : Flags) : Args → List Err
 end
 
 mutual
-/-- The per-block visit over every basic block the statement gives rise to: statements
-    (`visit_Expr`, `_check_assign`) and branch predicates. -/
-def errsStmt (F : Flags) : Stmt → List Err
-  | .expr e => errsExpr F e
-  | .assign v =>
-      if F.dagger then [.assign]
-      else match v with
-        | some e => errsExpr F e
-        | none => []
-  | .ite c t f => errsExpr F c ++ errsBlock F t ++ errsBlock F f
-  | .while c b => errsExpr F c ++ errsBlock F b
-def errsBlock (F : Flags) : Block → List Err
-  | .nil => []
-  | .cons s r => errsStmt F s ++ errsBlock F r
-end
-
-mutual
 /-- `len(loop_in_ast(stmt)) != 0` -/
 def Stmt.hasLoop : Stmt → Bool
   | .expr _ => false
   | .assign _ => false
   | .ite _ t f => t.hasLoop || f.hasLoop
   | .while _ _ => true
+  | .withBlock _ _ b => b.hasLoop
 def Block.hasLoop : Block → Bool
   | .nil => false
   | .cons s r => s.hasLoop || r.hasLoop
 end
 
 mutual
-/-- `find_nodes(Assign | AnnAssign | AugAssign, stmt)` non-empty; for a `with` body:
-    some basic block has a non-empty `vars.assigned` -/
+/-- `find_nodes(Assign | AnnAssign | AugAssign, stmt)` non-empty (searches nested `with`
+    bodies too) -/
 def Stmt.hasAssign : Stmt → Bool
   | .expr _ => false
   | .assign _ => true
   | .ite _ t f => t.hasAssign || f.hasAssign
   | .while _ b => b.hasAssign
+  | .withBlock _ _ b => b.hasAssign
 def Block.hasAssign : Block → Bool
   | .nil => false
   | .cons s r => s.hasAssign || r.hasAssign
+end
+
+mutual
+/-- some basic block of the body's CFG has a non-empty `vars.assigned`: assignments of this
+    body, not those of `with` blocks nested in it (`visit_ModifiedBlock` records none) -/
+def Stmt.hasAssignShallow : Stmt → Bool
+  | .expr _ => false
+  | .assign _ => true
+  | .ite _ t f => t.hasAssignShallow || f.hasAssignShallow
+  | .while _ b => b.hasAssignShallow
+  | .withBlock _ _ _ => false
+def Block.hasAssignShallow : Block → Bool
+  | .nil => false
+  | .cons s r => s.hasAssignShallow || r.hasAssignShallow
 end
 
 /-- `check_invalid_under_dagger(fn_def, flags)`: per top-level statement, loops first,
@@ -195,8 +197,31 @@ where
 def prepassWith (F : Flags) (b : Block) : Option Err :=
   if !F.dagger then none
   else if b.hasLoop then some .loop
-  else if b.hasAssign then some .assign
+  else if b.hasAssignShallow then some .assign
   else none
+
+mutual
+/-- The per-block visit over every basic block the statement gives rise to: statements
+    (`visit_Expr`, `_check_assign`) and branch predicates. -/
+def errsStmt (F : Flags) : Stmt → List Err
+  | .expr e => errsExpr F e
+  | .assign v =>
+      if F.dagger then [.assign]
+      else match v with
+        | some e => errsExpr F e
+        | none => []
+  | .ite c t f => errsExpr F c ++ errsBlock F t ++ errsBlock F f
+  | .while c b => errsExpr F c ++ errsBlock F b
+  | .withBlock cargs G b =>
+      -- the enclosing block's visitor reaches the control arguments; `check_modified_block`
+      -- runs the dagger pre-check for the block's own modifiers; the body CFG is checked with
+      -- the flags of the enclosing context added (`_add_unitary_flags`)
+      errsArgs F cargs ++ (prepassWith G b).toList ++ errsBlock (F.or G) b
+def errsBlock (F : Flags) : Block → List Err
+  | .nil => []
+  | .cons s r => errsStmt F s ++ errsBlock F r
+end
+
 
 /-- Where do the context's flags come from. -/
 inductive Kind where
